@@ -176,6 +176,9 @@ func (k *checker) account(id string, c *ld.Case, out outcome, origin string) {
 	s.Add("loads_ok", 1)
 	s.Add("compared", out.compared)
 	s.Eval(out.compared)
+	if out.preRendered {
+		s.Add("rendered_with_secret_content_first", 1)
+	}
 	if out.compared > 0 {
 		s.Nontrivial(c.Key())
 	}
